@@ -306,6 +306,19 @@ Definition check_C05_last (actual : list (N * bool)) (ins : list (N * input)) (t
   (a : addr) (s : service) : N :=
   let h := final_hist (found_touches ins a s) t_end in
   if h_ambiguous h then 0 else
+  (* a registration call in the very instant of an offer / withdrawal of this key: the call runs at once, the offer entries
+     of a datagram one loop iteration later (handle_offer is deferred) - which of them came first is not what the listed
+     order says; not judged *)
+  let touches_key (q : N * input) := match snd q with
+                                     | IOffer a' s' _ => (a' =? a) && service_key_eqb s' s
+                                     | IStopOffer a' s' => (a' =? a) && service_key_eqb s' s
+                                     | IReboot a' => a' =? a
+                                     | _ => false
+                                     end in
+  if existsb (fun p => match snd p with
+                       | IApi c => (is_reg_api c || is_unreg_api c) && existsb (fun q => (fst q =? fst p) && touches_key q) ins
+                       | _ => false
+                       end) ins then 0 else
   let last_up := match rev actual with p :: _ => snd p | [] => false end in
   match h_state h with
   | None =>
